@@ -116,6 +116,8 @@ pub(crate) fn remove_or_compress_too_old_logfiles_impl(
     {
         if index >= log_limit + compress_limit {
             // delete (log or log.gz)
+            #[cfg(flexi_logger_verif)]
+            crate::verif_hooks::fs_point(crate::verif_hooks::FsOp::Remove, &file)?;
             std::fs::remove_file(file)?;
         } else if index >= log_limit {
             #[cfg(feature = "compress")]
@@ -135,13 +137,26 @@ pub(crate) fn remove_or_compress_too_old_logfiles_impl(
                             }
                         }
 
+                        #[cfg(flexi_logger_verif)]
+                        crate::verif_hooks::fs_point(
+                            crate::verif_hooks::FsOp::GzCreate,
+                            &compressed_file,
+                        )?;
                         let mut gz_encoder = flate2::write::GzEncoder::new(
                             File::create(compressed_file)?,
                             flate2::Compression::fast(),
                         );
+                        #[cfg(flexi_logger_verif)]
+                        crate::verif_hooks::fs_point(crate::verif_hooks::FsOp::GzOpen, &file)?;
                         let mut old_file = File::open(file.clone())?;
+                        #[cfg(flexi_logger_verif)]
+                        crate::verif_hooks::fs_point(crate::verif_hooks::FsOp::GzCopy, &file)?;
                         std::io::copy(&mut old_file, &mut gz_encoder)?;
+                        #[cfg(flexi_logger_verif)]
+                        crate::verif_hooks::fs_point(crate::verif_hooks::FsOp::GzFinish, &file)?;
                         gz_encoder.finish()?;
+                        #[cfg(flexi_logger_verif)]
+                        crate::verif_hooks::fs_point(crate::verif_hooks::FsOp::Remove, &file)?;
                         std::fs::remove_file(&file)?;
                     }
                 }
